@@ -221,6 +221,38 @@ theorem esc_unesc_text (strip : Bool) (s : Str) (hs : ∀ c ∈ maybeStrip strip
   simp only [List.append_nil] at this
   simp [unescape, writeText_eq, this, unescGo]
 
+/-! ### the escaping layer alone, for EVERY string
+
+`unescAny` replaces references and does nothing else (no XML `Char` check, no normalisation).  For every string
+of Unicode scalar values - C0 controls, U+FFFE/U+FFFF, astral characters included - what `enc`, `attr` and
+`write_text` produce reads back as the (optionally stripped) string: escaping never loses or merges anything,
+independently of whether XML 1.0 can carry the characters (that is what `esc_unesc_*` + `strip_legal` add).
+(Python `str`s with lone surrogates are not sequences of scalar values; outside the alphabet, see docs.) -/
+
+theorem esc_roundtrip_all (s : Str) : unescAny (enc s) = some s := by
+  simpa [unescAny, enc] using unescAny_flatMap encChar unescAny_encChar s
+
+theorem attr_roundtrip_all (strip : Bool) (s : Str) : unescAny (attr strip s) = some (maybeStrip strip s) := by
+  simpa [unescAny, attr_eq] using unescAny_flatMap attrChar unescAny_attrChar (maybeStrip strip s)
+
+theorem text_roundtrip_all (strip : Bool) (s : Str) : unescAny (writeText strip s) = some (maybeStrip strip s) := by
+  simpa [unescAny, writeText_eq] using unescAny_flatMap textChar unescAny_textChar (maybeStrip strip s)
+
+/-- hence escaping is injective: two names / texts with the same escaped form are the same after stripping -/
+theorem esc_injective_all (strip : Bool) (s t : Str) :
+    (attr strip s = attr strip t → maybeStrip strip s = maybeStrip strip t) ∧
+    (writeText strip s = writeText strip t → maybeStrip strip s = maybeStrip strip t) ∧
+    (enc s = enc t → s = t) := by
+  refine ⟨fun h => ?_, fun h => ?_, fun h => ?_⟩
+  · have := attr_roundtrip_all strip s; rw [h, attr_roundtrip_all] at this; exact (Option.some.inj this).symm
+  · have := text_roundtrip_all strip s; rw [h, text_roundtrip_all] at this; exact (Option.some.inj this).symm
+  · have := esc_roundtrip_all s; rw [h, esc_roundtrip_all] at this; exact (Option.some.inj this).symm
+
+example : unescAny (attr false ['\x00', '&', 'a', 'm', 'p', ';', '\t', Char.ofNat 0xFFFE, Char.ofNat 0x1F600, '\x1b']) =
+    some ['\x00', '&', 'a', 'm', 'p', ';', '\t', Char.ofNat 0xFFFE, Char.ofNat 0x1F600, '\x1b'] := by decide
+
+example : unescape true (attr false ['\x00']) = none := by decide   -- XML itself cannot carry it: strip_control
+
 /-- with strip_control every C0 control character other than TAB/LF/CR is gone, so the hypothesis of the
 two theorems above holds for every string of XML characters and C0 controls -/
 theorem strip_legal (s : Str) (hs : ∀ c ∈ s, isXmlChar c = true ∨ c.toNat < 32) :
